@@ -149,7 +149,7 @@ class C14(Prop):
         if not d and isinstance(obs["t"], list) and len(obs["t"]) == len(shapes):
             # reified stroke width against the model of reify() (Model/Reify.strokeWidth)
             for i, (o, w) in enumerate(zip(obs["t"], shapes)):
-                d = dg.reified_diff(o, w, geometry=False)
+                d = dg.reified_diff(o, w, geometry=False, impl_m=f[i]["m"])
                 if d:
                     d = "shape %d: %s" % (i, d)
                     break
